@@ -147,3 +147,25 @@ def steps(c):
     df = 0.5 * (fe[2:] - fe[:-2])
     dd = np.mod(np.roll(d, -1) - d + 180.0, 360.0) - 180.0
     return df, dd
+
+
+def prime_terms(c, gen=None, dis=None, balance=None, positive=False):
+    """Use source-term objects once on a spectrum whose grid has the SAME shape as the case's but other
+    frequencies and directions (in practice a balance object is created once and applied to many spectra):
+    nothing of that call may carry over to the evaluation of the case."""
+    other = dict(c, fkind="uniform" if c["fkind"] == "geometric" else "geometric", f0=c["f0"] * 1.7,
+                 fmax=c.get("fmax", 0.8) * 0.6, t0=(c["t0"] + 360.0 / c["nd"] * 0.37) % 360.0,
+                 points=[{"kind": "jonswap", "hs": 1.5, "fp": 0.2, "gamma": 2.0, "theta": 200.0, "power": 2,
+                          "positive_floor": positive}],
+                 depth=[25.0])
+    so = build(other)
+    u, a = da([9.0], so), da([170.0], so)
+    if gen is not None:
+        gen.rate(so, u, a, roughness_length=da([1e-4], so))
+        gen.bulk_rate(so, u, a)
+    if dis is not None:
+        dis.rate(so)
+        dis.bulk_rate(so)
+    if balance is not None:
+        from ocean_science_utilities.wavephysics.windestimate import estimate_u10_from_source_terms
+        estimate_u10_from_source_terms(so, balance)
